@@ -715,6 +715,21 @@ func GenObjectStandalone(r *wk.Rand, cfg Cfg) *Shape {
 var pointerFields = map[string]map[string]bool{
 	"P1": {"c": true, "d": true}, "*P1": {"c": true, "d": true}, "P3": {"pinner": true, "n": true},
 	"P4b": {"z": true}, "P7": {"opt": true, "choice": true}, "P2": {"extra": true},
+	"P10": {"a": true, "b": true, "c": true}, "*P10": {"a": true, "b": true, "c": true}, "P11": {"n": true, "m": true},
+}
+
+// AllAbsentable reports whether every property of a struct-mapped object is mapped to a field that can
+// represent absence (so presence rules are meaningful on its native values).
+func AllAbsentable(s *Shape) bool {
+	if s.Struct == "" {
+		return true
+	}
+	for _, p := range s.Props {
+		if !pointerFields[s.Struct][p.Name] && !p.EmptyDef {
+			return false
+		}
+	}
+	return true
 }
 
 // admitsZero: does the type accept the Go zero value of its native type?
